@@ -340,7 +340,7 @@ Qed.
 Lemma cache_put_spec k id o roots s :
   Inv cfg m roots s -> c_present (cch s k) = true ->
   (o < length (heap s))%nat -> i_k (get_inst s o) = k -> i_id (get_inst s o) = id ->
-  ok_base m s (get_inst s o) -> (nu m = true -> i_obsolete (get_inst s o) = false) ->
+  ok_base m s (get_inst s o) -> i_obsolete (get_inst s o) = false ->
   (forall x, live s roots x -> i_obsolete (get_inst s x) = false -> i_k (get_inst s x) = k ->
              i_id (get_inst s x) = id -> row_exists s k id -> False) ->
   exists c', cache_put cfg k id o s = (Ret tt, with_caches s c') /\
@@ -357,7 +357,7 @@ Lemma cache_created_spec k id o s :
   Inv cfg m [] s ->
   (forall a, ~ cached s k a o) ->
   (o < length (heap s))%nat -> i_k (get_inst s o) = k -> i_id (get_inst s o) = id ->
-  ok_base m s (get_inst s o) -> (nu m = true -> i_obsolete (get_inst s o) = false) ->
+  ok_base m s (get_inst s o) -> i_obsolete (get_inst s o) = false ->
   (forall x, live s [] x -> i_obsolete (get_inst s x) = false -> i_k (get_inst s x) = k ->
              i_id (get_inst s x) = id -> row_exists s k id -> False) ->
   exists c', cache_created cfg k id o s = (Ret tt, with_caches s c') /\
